@@ -1040,6 +1040,25 @@ def build_world_min():
     return m.finish()
 
 
+def build_world_overrides(kind):
+    """a small world whose overrides all have a default ('optional': the map starts empty and is only filled by inserts) or all lack one
+    ('required': the map is never mutated) - the two boundary cases of the `let` / `let mut entries` choice and of the helper parameters"""
+    m = Model('overrides_' + kind)
+    f32_ = m.scalar('Float', 4)
+    bool_ = m.scalar('Bool', 1)
+    u32_ = m.scalar('Uint', 4)
+    v4 = m.vec(4)
+    if kind == 'optional':
+        m.override('o_gain', f32_, init=True)
+        m.override('o_on', bool_, id_=3, init=True)
+    else:
+        m.override('o_count', u32_)
+        m.override('o_flag', bool_, id_=5)
+    m.entry('vs_main', 'Vertex', [], (v4, m.builtin('Position')))
+    m.entry('fs_main', 'Fragment', [], (v4, m.loc(0)))
+    return m.finish()
+
+
 def build_world_leaf_zoo():
     """every leaf type of the type table as a member of one host-shareable struct (derive switches off: no layout constraints)"""
     m = Model('leaf_zoo')
